@@ -5,6 +5,8 @@ import (
 	"context"
 	"errors"
 	"fmt"
+	v3listenerpb "github.com/envoyproxy/go-control-plane/envoy/config/listener/v3"
+	v3routepb "github.com/envoyproxy/go-control-plane/envoy/config/route/v3"
 	"runtime"
 	"sort"
 	"strconv"
@@ -743,6 +745,56 @@ func kindCases(c *ctx) {
 	}
 }
 
+// placeholderCases: lookups wait for two route tables (listeners, ...); the response carries one of them well-formed and
+// the other under its own name but not convertible. The response is rejected as a whole: neither lookup may come back
+// with a placeholder (a nil resource without an error) - what the control plane did not usably supply is an error.
+func placeholderCases(c *ctx) {
+	for _, rt := range []string{"rds", "lds"} {
+		w, err := newWorld(worldOpts{ndsNotRequired: true, fetchTimeout: 400 * time.Millisecond})
+		if err != nil {
+			fmt.Println("placeholder: world:", err)
+			return
+		}
+		T := rtOf(rt)
+		type out struct{ name, res string }
+		ch := make(chan out, 2)
+		for _, n := range []string{"p-good", "p-bad"} {
+			n := n
+			go func() { ch <- out{n, w.get(T, n)} }()
+		}
+		w.waitFor(func() bool { return len(w.m.VerifPending()[T]) == 2 }, 2*time.Second)
+		var bad *anypb.Any
+		if rt == "rds" {
+			bad = mustAny(&v3routepb.RouteConfiguration{Name: "p-bad", VirtualHosts: []*v3routepb.VirtualHost{{Name: "vh",
+				Routes: []*v3routepb.Route{{Match: &v3routepb.RouteMatch{PathSpecifier: &v3routepb.RouteMatch_Prefix{Prefix: "/"}}}}}}})
+		} else {
+			l := listenerRDS("p-bad", "x")
+			l.FilterChains[0].Filters[0].ConfigType.(*v3listenerpb.Filter_TypedConfig).TypedConfig.Value = []byte{0xff, 0xff, 0xff, 0xff, 0x0f, 0x01}
+			bad = mustAny(l)
+		}
+		w.feed(mkResp(urlOf(rt), "v1", "n1", []*anypb.Any{anyStamped(rt, "p-good", "p-good#1"), bad}))
+		res := map[string]string{}
+		for i := 0; i < 2; i++ {
+			select {
+			case o := <-ch:
+				res[o.name] = o.res
+			case <-time.After(4 * time.Second):
+				w.hung = true
+			}
+		}
+		for _, n := range []string{"p-good", "p-bad"} {
+			if _, ok := res[n]; !ok {
+				res[n] = "hang"
+			}
+		}
+		c.count("placeholder-cases", 1)
+		c.emit(obj{"op": "placeholder", "rt": rt, "obs": obj{"good": res["p-good"], "bad": res["p-bad"]}})
+		if !w.hung {
+			w.close()
+		}
+	}
+}
+
 func deadlineCases(c *ctx) {
 	for _, tc := range []struct {
 		fetchMs, callerMs int
@@ -880,6 +932,7 @@ func init() {
 		runAll(c)
 		deadlineCases(c)
 		kindCases(c)
+		placeholderCases(c)
 		// lookups (cached and uncached names) placed around and between the lock sections of a response handler: each
 		// returns in time whatever the receiver is doing
 		runSysLookups(c)
